@@ -132,7 +132,7 @@ impl Property for C06 {
         ]
     }
     fn cases(tier: Tier) -> u64 {
-        tier.pick(4_000, 150_000)
+        tier.pick(8_000, 150_000)
     }
     fn strategy(_tier: Tier) -> BoxedStrategy<Spec> {
         let outer = valid_world(Cfg { max_steps: 2, max_owners: 1, ..Cfg::basic() });
